@@ -111,7 +111,10 @@ pub fn gen_case(seed: u64, k: u64, tier: Tier) -> Case {
       let first_ok = graph.get(&u).is_some();
       let second_integrity = g2.module_errors().any(|e| e.specifier().as_str() == s && e.to_string().contains("ntegrity"));
       // only specifiers that serve the same bytes under both cache settings
-      let same = c.world.content_of(s, false) == c.world.content_of(s, true);
+      // ... and that no other specifier claims as its final specifier (the bytes recorded for s
+      // are then not the bytes s itself serves)
+      let aliased = c.world.final_specifiers.values().any(|f| f == s) || c.world.final_specifiers.contains_key(s);
+      let same = c.world.content_of(s, false) == c.world.content_of(s, true) && !aliased;
       if first_ok && second_integrity && same {
         let raw = c.world.content_of(s, false).unwrap_or_default();
         let text_differs = graph.get(&u).and_then(|m| m.source().map(|t| t.as_bytes() != raw.as_slice())).unwrap_or(false);
@@ -144,6 +147,10 @@ pub fn gen_case(seed: u64, k: u64, tier: Tier) -> Case {
 
 pub fn run(cfg: &RunCfg) {
   let n = if cfg.tier == Tier::Quick { 3000 } else { 60000 };
+  // registry (stage B2) worlds: manifest checksums, lockfile package checksums, https URLs into the registry
+  let nj = if cfg.tier == Tier::Quick { 3000 } else { 60000 };
   let tier = cfg.tier;
-  run_cases(cfg, n, |seed, k| gen_case(seed, k, tier));
+  run_cases(cfg, n + nj, |seed, k| {
+    if k < n { gen_case(seed, k, tier) } else { crate::props::jsr::gen_case(seed, k - n, crate::props::jsr::Flavour::Checksums) }
+  });
 }
